@@ -25,7 +25,7 @@ TRUSTED_BASE = [
     'Lean 4.33 kernel (lake build); axioms allowed: propext, Classical.choice, Quot.sound (audited per theorem)',
     'tools/translate.py + tools/rx.py: CPython re._parser tree -> Re, Unicode tables from the running interpreter',
     'the hand-written Lean mirror of the Python control flow, tied to the code by this correspondence check only',
-    'model matcher = CPython sre on the well-formed fragment (validated by tools/regexdiff.py, not proved)',
+    'model matcher = CPython sre on the well-formed fragment (validated pattern by pattern in every run by tools/harness/regexdiff.py, not proved)',
 ]
 
 REGISTRY = {}
@@ -211,6 +211,18 @@ def run_property(prop, ctx, broken=False):
         except ModelError as e:
             res.disagreement(case, None, 'model driver failure: %s' % e, 'driver')
 
+    # the model's matcher against CPython's, pattern by pattern (part of the tie; see harness/regexdiff.py)
+    if ctx.model is not None and os.environ.get('VERIF_NO_REGEXDIFF') != '1':
+        from . import regexdiff
+        import random as _random
+        try:
+            compared, bad = regexdiff.run(ctx.model, regexdiff.default_sites(), _random.Random(ctx.seed * 7919 + 13),
+                                          20 if ctx.tier == 'quick' else 150)
+            res.distribution['regex_differential_compared'] = compared
+            for b in bad:
+                res.disagreement({'regexdiff': b}, b['python'], b['model'], 'regular-expression matcher vs re on pattern %s' % b['site'])
+        except (OSError, ModelError) as e:
+            res.distribution['regex_differential_error'] = str(e)[:200]
     for case in prop.corpus(ctx):
         run_case(case)
     n = prop.n_cases(ctx)
